@@ -141,6 +141,11 @@ func runC08(r *kit.Run) {
 				return
 			}
 		}
+		if c.Chance("get-validators", 1, 3) {
+			// distributeRewards before YouV5 walks GetValidators().List() on the state it mutates
+			// (staking/endblock.go:304); the list must be the current records
+			c08SortedList(r, st, fmt.Sprintf("block %d EndBlock", b))
+		}
 		before := loadable(st)
 		st.IntermediateRoot(true) // consensus/ucon/consensus.go:798 (FinalizeAndAssemble), block_validator.go:103
 		r.Logf("IntermediateRoot (end of block %d)", b)
@@ -458,6 +463,27 @@ func c08Check(r *kit.Run, st *state.StateDB, where string) bool {
 		}
 	}
 	return ok
+}
+
+// c08SortedList compares GetValidators() (documented as a cached, read-only view) with the
+// records loadable by address.
+func c08SortedList(r *kit.Run, st *state.StateDB, where string) {
+	guard(r, "validator-load-panic", where, func() {
+		want := map[string]string{}
+		for _, k := range valKeys {
+			if v := st.GetValidatorByMainAddr(k.addr); v != nil {
+				want[nm(k.addr)] = fmt.Sprintf("tok=%s stake=%s status=%d role=%d", v.Token, v.Stake, v.Status, v.Role)
+			}
+		}
+		got := map[string]string{}
+		for _, v := range st.GetValidators().List() {
+			got[nm(v.MainAddress())] = fmt.Sprintf("tok=%s stake=%s status=%d role=%d", v.Token, v.Stake, v.Status, v.Role)
+		}
+		if d := Diff(Obs(want), Obs(got)); len(d) > 0 {
+			r.Report("getvalidators-not-current", "%s: GetValidators().List() is not the current validator set:%s", where, describeDiff(Obs(want), Obs(got), d))
+		}
+		r.Probe("getvalidators-on-live-object")
+	})
 }
 
 func valSums(v *state.Validator) string {
